@@ -20,7 +20,7 @@ pub fn op_bins_grid(cx: &mut Ctx, op: &Op) {
             let nb = n_bins(&edges);
             let in_range = (i as u128) < nb as u128;
             let (out, s) = with_policy(&op.policy, 64, || {
-                let bins = Bins::new(Edges::from(edges.clone()));
+                let bins = Bins::new(crate::hist::edges_of::<i64>(&edges, op.form));
                 let r = bins.index(i as usize);
                 (r.start, r.end, bins.len())
             });
@@ -57,7 +57,7 @@ pub fn op_bins_grid(cx: &mut Ctx, op: &Op) {
             let in_range = op.idx.iter().zip(&lens).all(|(&i, &l)| (i as u128) < l as u128);
             let idx: Vec<usize> = op.idx.iter().map(|&i| i as usize).collect();
             let (out, s) = with_policy(&op.policy, 64, || {
-                let grid = Grid::from(axes.iter().map(|e| Bins::new(Edges::from(e.clone()))).collect::<Vec<_>>());
+                let grid = Grid::from(axes.iter().enumerate().map(|(j, e)| Bins::new(crate::hist::edges_of::<i64>(e, if j == 0 { op.form } else { 0 }))).collect::<Vec<_>>());
                 grid.index(&idx).len()
             });
             cx.note_draws(op.policy.kind, &s.draws);
